@@ -85,13 +85,30 @@ def _run(ctx, pid, thorough, rng, exe, tmp):
         # dynamic part: notices + commands in drained sessions (state compared after every event)
         for i in range(40 if thorough else 8):
             c = gen_cfg(rng); tree, _ = gen_tree(rng, c, deep=(i % 2 == 0))
+            if i % 4 == 1:
+                # a chain: interface below the root, a second interface below it, configured boards at the third level
+                c = cfgmod.gen(rng, nboards=4, ntrains=rng.choice([0, 1]))
+                c["boards"][1]["uid"][0] |= 0x80; c["boards"][2]["uid"][0] |= 0x80
+                tree = [([], c["boards"][0]["uid"]), ([1], c["boards"][1]["uid"]), ([1, 1], c["boards"][2]["uid"]), ([1, 1, 1], c["boards"][3]["uid"]),
+                        ([1, 1, 2], [0x00, rng.randrange(256), 0x0d, 1, 2, 3, 4])]
             s = g.Session("nt%d" % i, c, os.path.join(tmp, "nt%d" % i), tree=tree, full=True); s.nodetab_events = 0.45
             s.lists()
+            def lose_top():
+                # loss of an interface that has nodes two levels below it: everything beneath it goes, not only its children
+                cfg_uids = {tuple(b["uid"]) for b in c["boards"]}
+                tops = [(p, u) for p, u in s.tree if len(p) == 1 and tuple(u) in cfg_uids and any(len(q) == 3 and q[:1] == p and tuple(v) in cfg_uids for q, v in s.tree)]
+                if tops:
+                    p, u = rng.choice(tops)
+                    s.up([], 0x8c, [rng.randrange(1, 255), p[0]] + list(u)); s.lists()
+                    for _ in range(4):
+                        fn, sa, iv = g.rand_command(rng, s); s.hl(fn, sa, iv)
+            if i % 4 == 1: lose_top()                  # chain trees: first thing, while everything is still connected
             for _ in range(40):
                 if rng.random() < 0.6: s.up(*g.rand_uplink(rng, s))
                 else:
                     fn, sa, iv = g.rand_command(rng, s); s.hl(fn, sa, iv)
                 if rng.random() < 0.25: s.lists()          # connected-entity lists follow the node-table notices
+            if i % 4 != 1: lose_top()
             s.flush(); sessions.append(s.end())
     res = drv.run(exe, [s.s for s in sessions], timeout=120)
     items = []
